@@ -246,6 +246,13 @@ type Pair struct {
 	PostResp  []byte // everything the server wrote after the response up to the client's release (seed frame ‖ early data)
 	PostSent  []byte // what the middlebox actually delivered in its place (= PostResp unless TamperPost)
 	ClientErr error  // the error Dial returned (only with AllowClientFail)
+	// the public handshake transcript as seen on the wire, and the client's ntor inputs/outputs
+	// (hook VerifClientArgs + exported ntor API), for the on-path oracles and the ntor tie
+	HelloWire, RespWire []byte
+	Ntor                struct {
+		XPriv, X, Y, B, ID, KeySeed, Auth []byte
+		OK                                bool
+	}
 	// Armed[role] (0 client, 1 server) describes the deadline halves of the underlying conn that
 	// were still armed when Dial / WrapConn returned successfully ("" = none)
 	Armed     [2]string
@@ -348,6 +355,7 @@ func Setup(p Params, o SetupOpts) (*Pair, error) {
 	}
 	hello := cc.TakeWritten()
 	pr.HelloLen = len(hello)
+	pr.HelloWire = append([]byte(nil), hello...)
 	sc.FeedChunks(hello, o.Hello.Split(len(hello), nil))
 	var srv net.Conn
 	var srvErr error
@@ -395,7 +403,15 @@ func Setup(p Params, o SetupOpts) (*Pair, error) {
 	if nodeID, idPub, sess, _, ok := obfs4.VerifClientArgs(cargs); ok && len(first) >= 32 {
 		var repr ntor.Representative
 		copy(repr.Bytes()[:], first[:32])
-		okh, seed, _ := ntor.ClientHandshake(sess, repr.ToPublic(), idPub, nodeID)
+		okh, seed, auth := ntor.ClientHandshake(sess, repr.ToPublic(), idPub, nodeID)
+		pr.RespWire = append([]byte(nil), first[:pr.RespLen]...)
+		cp := func(b []byte) []byte { return append([]byte(nil), b...) }
+		pr.Ntor.XPriv, pr.Ntor.X = cp(sess.Private().Bytes()[:]), cp(sess.Public().Bytes()[:])
+		pr.Ntor.Y, pr.Ntor.B, pr.Ntor.ID = cp(repr.ToPublic().Bytes()[:]), cp(idPub.Bytes()[:]), cp(nodeID.Bytes()[:])
+		pr.Ntor.OK = okh
+		if seed != nil && auth != nil {
+			pr.Ntor.KeySeed, pr.Ntor.Auth = cp(seed.Bytes()[:]), cp(auth.Bytes()[:])
+		}
 		if okh {
 			okm := ntor.Kdf(seed.Bytes()[:], framing.KeyLength*2)
 			pr.Keys[C2S] = okm[:framing.KeyLength]
